@@ -46,4 +46,24 @@ theorem tetFile_accepts : Accepts tetCfg tetFile where
     simp only [tetFile, List.mem_cons, List.not_mem_nil, or_false] at hc
     subst hc; rfl
 
+/-- an alternative layout of `tetFile`: vertices in two spans (the second float-encoded), edges with different
+    handle widths in two spans, faces in two spans (the second with handle offset 4), cells with handle offset 1,
+    two skippable chunks (one of type EOF with an unknown version), the directory after the topology, the
+    property values in two spans, explicit padding, a non-mandatory flag, file version 7 -/
+def altLayout : Layout :=
+  { fileVersion := 7,
+    pieces := [ { spec := .vert 1 vertexEncodingDouble }, { spec := .vert 3 vertexEncodingFloat, pad := some 3 },
+                { spec := .edges 2 intEncodingU16 0 }, { spec := .skip 1234 0 0 [1, 2, 3] },
+                { spec := .edges 4 intEncodingU32 0 },
+                { spec := .faces 3 true intEncodingNone intEncodingU8 0, flags := 0 },
+                { spec := .faces 1 true intEncodingNone intEncodingU16 4 },
+                { spec := .cells 1 true intEncodingNone intEncodingU16 1 },
+                { spec := .dirp }, { spec := .prop 0 3 }, { spec := .skip ccEOF 1 0 [] }, { spec := .prop 0 1 },
+                { spec := .eof } ] }
+
+theorem altLayout_valid : ValidLayout altLayout tetFile = true := by decide
+
+set_option maxRecDepth 20000 in
+theorem altLayout_length : (encodeWith altLayout tetFile).length = 631 := by decide
+
 end OVM.Ovmb.Example
